@@ -1,8 +1,10 @@
 /-
-  Device path: `parseFruDevice v (encodeFru img ++ tail) = ok (view img without header)`.
-  Core only.
+  Device path: `parseFruDevice v (encodeFru img ++ tail) = ok (view img without header)`;
+  acceptance on the device path (`_read_fru_area` validating the length byte) implies, for every
+  announced info area, declared length ≥ 1 unit, inside the storage, zero-sum over the declared
+  span (`device_accept_area_span`).  Core only.
 -/
-import PyIpmi.Lemmas.FruImage
+import PyIpmi.Lemmas.FruAlterImage
 import PyIpmi.Model.FruDevice
 namespace PyIpmi.Fru
 open PyIpmi PyIpmi.Gen
@@ -41,9 +43,14 @@ theorem devArea_encode {α : Type} (v : Variant) (kind : AreaKind)
     rw [devRead_prefix _ _ _ 5 (by omega) (by omega)]
     simp only [Outcome.bind_ok]
     have h1 : ((encodeArea (toArea a)).take 5).getD 1 0 = (toArea a).total / 8 := by
-      rw [List.getD_eq_getElem?_getD, List.getElem?_take_of_lt (by omega), encodeArea_getElem1']
+      rw [List.getD_eq_getElem?_getD, List.getElem?_take_of_lt (by omega), encodeArea_getElem1]
       rfl
-    rw [h1, (toArea a).total_div, ← hlen]
+    rw [h1, (toArea a).total_div]
+    have hnz : (!v.devLenLax && (toArea a).total == 0) = false := by
+      have : ((toArea a).total == 0) = false := by simp; omega
+      rw [this]; simp
+    rw [hnz, ← hlen]
+    simp only [Bool.false_eq_true, if_false]
     rw [devRead_middle _ _ _ (by intro h; rw [h] at hlen; simp at hlen; omega)]
     simp only [Outcome.bind_ok]
     have hok' := hok a rfl
@@ -67,7 +74,7 @@ theorem devMrLen_encode (rs : List Record) (hne : rs ≠ []) (store rest : List 
         · exact h
         · rw [List.drop_eq_nil_of_le h] at hd
           have := congrArg List.length hd
-          cases rs <;> simp [encodeRecords, encodeRecord_length] at this
+          cases rs <;> simp [encodeRecords, encodeRecord_length] at this <;> omega
       have hlen : store.length - off = (encodeRecords (r :: rs) ++ rest).length := by
         rw [← hd, List.length_drop]
       -- the five header bytes of the first record
@@ -95,9 +102,10 @@ theorem devMrLen_encode (rs : List Record) (hne : rs ≠ []) (store rest : List 
         simp [flagByte, this, encodeRecord_length]
         omega
 
-theorem devMulti_encode (rs : List Record) (hwf : ∀ r ∈ rs, r.wf = true) (pre tail : List Nat)
+theorem devMulti_encode (v : Variant) (rs : List Record) (hwf : ∀ r ∈ rs, r.wf = true)
+    (hok : ∀ r ∈ rs, r.okFor v = true) (pre tail : List Nat)
     (hpre : 0 < pre.length) :
-    devMulti (pre ++ (encodeRecords rs ++ tail)) (offOf (!rs.isEmpty) pre.length) =
+    devMulti v (pre ++ (encodeRecords rs ++ tail)) (offOf (!rs.isEmpty) pre.length) =
       .ok (if rs.isEmpty then .absent else .parsed (viewRecords rs)) := by
   by_cases he : rs = []
   · simp [devMulti, offOf, he]
@@ -112,15 +120,15 @@ theorem devMulti_encode (rs : List Record) (hwf : ∀ r ∈ rs, r.wf = true) (pr
     simp only [Outcome.bind_ok, Nat.zero_add]
     rw [devRead_middle _ _ _ (encodeRecords_ne_nil rs he)]
     simp only [Outcome.bind_ok]
-    have := parseMulti_encode rs [] he hwf
+    have := parseMulti_encode v rs [] he hwf hok
     rwa [List.append_nil] at this
 
 theorem parse_encode_device_gen (v : Variant) (img : FruImage) (tail : List Nat)
     (hwf : img.wf = true) (hok : img.okFor v .bytes = true) :
     parseFruDevice v (encodeFru img ++ tail) = .ok { view img with header := none } := by
   obtain ⟨wc, wb, wp, wr⟩ := wf_parts img hwf
-  simp only [FruImage.okFor, Bool.and_eq_true] at hok
-  obtain ⟨⟨okc, okb⟩, okp⟩ := hok
+  simp only [FruImage.okFor, Bool.and_eq_true, List.all_eq_true] at hok
+  obtain ⟨⟨⟨okc, okb⟩, okp⟩, okr⟩ := hok
   have hHl := header_length img
   unfold parseFruDevice
   have hrd : devRead (encodeFru img ++ tail) 0 8 = .ok img.header := by
@@ -157,12 +165,87 @@ theorem parse_encode_device_gen (v : Variant) (img : FruImage) (tail : List Nat)
       (fun p e => by rw [e] at okp; simpa [optAll] using okp)
       (fun p _ => product_fits p)
     simpa [encodeFru, FruImage.prOff, FruImage.parts, hHl, List.append_assoc, Nat.add_assoc] using this
-  have sm : devMulti (encodeFru img ++ tail) img.mrOff =
+  have sm : devMulti v (encodeFru img ++ tail) img.mrOff =
       .ok (if img.records.isEmpty then .absent else .parsed (viewRecords img.records)) := by
-    have := devMulti_encode img.records wr
+    have := devMulti_encode v img.records wr okr
       (img.header ++ img.parts.iu ++ img.parts.ch ++ img.parts.bd ++ img.parts.pr) tail
       (by simp [hHl]; omega)
     simpa [encodeFru, FruImage.mrOff, FruImage.parts, hHl, List.append_assoc, Nat.add_assoc] using this
   simp only [sc, sb, sp, sm, Outcome.bind_ok, view]
+
+/-! ### acceptance on the device path -/
+
+theorem devRead_ok (store : List Nat) (off count : Nat) (d : List Nat) (hc : count ≠ 0)
+    (h : devRead store off count = .ok d) :
+    off + count ≤ store.length ∧ d = (store.drop off).take count := by
+  unfold devRead at h
+  rw [if_neg hc] at h
+  split at h
+  · cases h
+  · injection h with h
+    exact ⟨by omega, h.symm⟩
+
+theorem devArea_ok (v : Variant) (hv : v.devLenLax = false) (kind : AreaKind) (store : List Nat)
+    (off : Nat) (hoff : off ≠ 0) (s : Slot AreaView) (h : devArea v kind store off = .ok s) :
+    1 ≤ store.getD (off + 1) 0 ∧ off + 8 * store.getD (off + 1) 0 ≤ store.length ∧
+    sum8 ((store.drop off).take (8 * store.getD (off + 1) 0)) = 0 := by
+  unfold devArea at h
+  rw [if_neg hoff] at h
+  obtain ⟨d5, h5, h⟩ := ok_of_bind h
+  obtain ⟨hl5, e5⟩ := devRead_ok _ _ _ _ (by decide) h5
+  have hL : d5.getD 1 0 = store.getD (off + 1) 0 := by
+    rw [e5]
+    simp [List.getD_eq_getElem?_getD, List.getElem?_drop]
+  rw [hL] at h
+  split at h
+  · cases h
+  · rename_i hz
+    have hnz : store.getD (off + 1) 0 * 8 ≠ 0 := by
+      intro h0
+      apply hz
+      rw [hv, h0]; rfl
+    obtain ⟨d, hd, h⟩ := ok_of_bind h
+    obtain ⟨hl, ed⟩ := devRead_ok _ _ _ _ hnz hd
+    have hc := parseArea_clamped _ _ _ _ _ h
+    have hdl : d.length = store.getD (off + 1) 0 * 8 := by
+      rw [ed, List.length_take, List.length_drop]; omega
+    have hd1 : d.getD 1 0 = store.getD (off + 1) 0 := by
+      rw [ed]
+      have h1 : 1 < store.getD (off + 1) 0 * 8 := by omega
+      rw [List.getD_eq_getElem?_getD, List.getElem?_take_of_lt h1, List.getElem?_drop,
+        ← List.getD_eq_getElem?_getD]
+    have hnn : d ≠ [] := by
+      intro he; rw [he, List.length_nil] at hdl; omega
+    rw [areaSumClamped_ne_nil _ hnn, hd1, beq_iff_eq] at hc
+    have htake : d.take (8 * store.getD (off + 1) 0) = d := List.take_of_length_le (by omega)
+    rw [htake, ed, Nat.mul_comm] at hc
+    exact ⟨by omega, by omega, hc⟩
+
+/-- `Ipmi.get_fru_inventory()` with `_read_fru_area` validating the length byte: whatever the
+device stores, an accepted inventory means that every info area the header announces (byte `k`:
+2 chassis, 3 board, 4 product) declares a length of at least one unit, lies inside the storage and
+sums to zero over exactly the declared span. -/
+theorem device_accept_area_span (v : Variant) (hv : v.devLenLax = false) (store : List Nat)
+    (fv : FruView) (k : Nat) (hk : k = 2 ∨ k = 3 ∨ k = 4) (hoff : store.getD k 0 ≠ 0)
+    (hp : parseFruDevice v store = .ok fv) :
+    1 ≤ store.getD (8 * store.getD k 0 + 1) 0 ∧
+    8 * store.getD k 0 + 8 * store.getD (8 * store.getD k 0 + 1) 0 ≤ store.length ∧
+    sum8 ((store.drop (8 * store.getD k 0)).take (8 * store.getD (8 * store.getD k 0 + 1) 0)) = 0 := by
+  unfold parseFruDevice at hp
+  obtain ⟨h8, hr, hp⟩ := ok_of_bind hp
+  obtain ⟨hl8, e8⟩ := devRead_ok _ _ _ _ (by decide) hr
+  obtain ⟨hd, hhd, hp⟩ := ok_of_bind hp
+  obtain ⟨c, hc, hp⟩ := ok_of_bind hp
+  obtain ⟨b, hb, hp⟩ := ok_of_bind hp
+  obtain ⟨p, hpr, _⟩ := ok_of_bind hp
+  obtain ⟨_, _, o2, o3, o4, _⟩ := parseHeader_ok _ _ hhd
+  rw [e8, List.drop_zero, getD_take _ _ _ (by omega)] at o2 o3 o4
+  rcases hk with rfl | rfl | rfl
+  · rw [o2, Nat.mul_comm] at hc
+    exact devArea_ok v hv _ _ _ (by omega) _ hc
+  · rw [o3, Nat.mul_comm] at hb
+    exact devArea_ok v hv _ _ _ (by omega) _ hb
+  · rw [o4, Nat.mul_comm] at hpr
+    exact devArea_ok v hv _ _ _ (by omega) _ hpr
 
 end PyIpmi.Fru
